@@ -103,4 +103,11 @@ def add (v : V) (years months weeks days hours minutes seconds micros : Int) : E
         let l := fromUtc zt dt
         if inRange l.w then .ok ⟨v.z, l.w, l.fold⟩ else .error .overflow
 
+/-- `DateTime.add` including the range limit of its intermediate value: with fixed-length units only, the code first
+    forms `current_dt - offset` with native datetime arithmetic, which raises OverflowError when the UTC reading of the
+    start leaves years 1..9999 (first/last hours of the representable range) -/
+def addChecked (v : V) (years months weeks days hours minutes seconds micros : Int) : Except Err V :=
+  if years = 0 ∧ months = 0 ∧ weeks = 0 ∧ days = 0 ∧ inRange (v.w - v.offset) = false then .error .overflow
+  else add v years months weeks days hours minutes seconds micros
+
 end Pendulum.DTOps
